@@ -247,7 +247,7 @@ def judgeLine (c : Ctx) (root : Tree) (rootId : Nat) (r : Res) (line : String) :
         -- position the port's cursor on node k once per node
         let r := if r.cacheNode == k then r else
           let cur := gotoDescendant c.lang k (Cursor.ofRoot root rootId)
-          { r with cacheNode := k, cache := cur, stackBad := r.stackBad + (if stackLinked cur.stack then 0 else 1) }
+          { r with cacheNode := k, cache := cur, stackBad := r.stackBad + (if stackLinked cur.stack && stackIdxOK cur.stack then 0 else 1) }
         let qs := if usesPrev op then quirkSets else [("none", Quirks.none)]
         let hit := qs.find? fun (_, q) => portAnswer c.lang q r.cache op args == some answer
         let r := { r with portCompared := r.portCompared + 1 }
